@@ -28,7 +28,7 @@ CLAIMED = {
  'C10': ('5/C10', 'CrossHair symbolic execution of the greedy fill on words of symbolic length, of make_words, of the container budgets (unbounded integers) of tiny whole documents and of spelling skeletons with a symbolic limit',
          'for ALL word lengths and limits the fill honours the bound and keeps the words in order; the child budget stays positive for ALL limits; meaning/idempotence on tiny documents',
          'words are length-only duck strings; documents beyond the W4 bound outside'),
- 'C11': ('5/C11', 'CrossHair symbolic execution of an inductive step: arbitrary (symbolic) scratch state, symbolic renderer/probe choice, symbolic fault point (hook, call count, list position); plus solver-enumerated histories of probe documents, each executed concretely in a fresh interpreter',
+ 'C11': ('5/C11', 'CrossHair symbolic execution of an inductive step: arbitrary (symbolic) scratch state, symbolic renderer/probe choice, symbolic fault point (parse hook or render call, call count, list position); plus solver-enumerated histories of probe documents, each executed concretely in a fresh interpreter',
          'from ANY prior scratch state and after a fault at ANY of the enumerated crash points the observational invariant (token lists default, probe documents render to their fresh-interpreter baseline) holds',
          'Inv is observational; probe set listed in the evidence'),
  'C12': ('5/C12', 'CrossHair symbolic execution of traverse / Token.children / get_ast on all tree shapes (parent vectors) and of tiny whole documents; z3 regular-language query on Heading.pattern',
@@ -37,7 +37,7 @@ CLAIMED = {
  'C13': ('5/C13', 'CrossHair symbolic execution of tokenize_block + container readers on skeleton documents with symbolic blank-line counts and an unbounded symbolic start line',
          'for ALL start lines and ALL admitted blank-line counts every block token of every skeleton reports the line it starts on',
          'skeleton list in vfy/lemmas/c13.py'),
- 'C14': ('5/C14', 'z3 regular-language inclusion of the compiled block-start patterns in the CommonMark grammars (lines of any length) + CrossHair on coded starts and tiny paragraphs',
+ 'C14': ('5/C14', 'z3 regular-language inclusion of the compiled block-start patterns and the autolink pattern in the CommonMark grammars (lines of any length) + CrossHair on coded starts and tiny paragraphs',
          'unbounded-length inclusion queries on the live compiled patterns decide that nothing is a block start unless the spec says so; coded starts and the inline phase are checked by bounded symbolic execution',
          'code points <= U+2FFFF; oracles apply on Σmd only; translator validated against re on corpus lines each run'),
  'C15': ('5/C15', 'CrossHair symbolic execution of Document.__init__ line normalisation (recorder on the tokenizer), the CLI with stubbed open/stdout, and tiny whole documents',
